@@ -177,6 +177,15 @@ def build():
                   E('handle', 'hid(r.unwrap()) == old(self).0.abs().created()', 'C01 C20'),
                   E('state', 'final(self).0.abs() == old(self).0.abs().create_deferred()', 'C01 C02 C17 C20'),
                   E('complete', 'old(self).0.wf_complete() ==> final(self).0.wf_complete()', 'C17')])
+    u.fn(F, ['impl EntitiesRes', 'fn create_iter'], ret='r', props='C01', mut_self=True, key='EntitiesRes::create_iter',
+         rules=[('N3', r'CreateIterAtomic\(&self\.alloc\)', 'CreateIterAtomic(&mut self.alloc)'), ('N1', r'-> CreateIterAtomic', "-> CreateIterAtomic<'_>")],
+         ensures=[E('same_alloc', '*r.0 == old(self).alloc && final(self).alloc == *final(r.0)')])
+    u.fn(F, ['impl EntitiesRes', 'fn build_entity'], ret='r', props='C01 C02', mut_self=True, key='EntitiesRes::build_entity',
+         rules=[('N1', r'-> EntityResBuilder', "-> EntityResBuilder<'_>")],
+         requires=ER_REQ,
+         ensures=[E('handle', 'hid(r.entity) == old(self).alloc.abs().created() && !r.built', 'C01 C20'),
+                  E('state', 'r.entities.alloc.abs() == old(self).alloc.abs().create_deferred() && r.entities.alloc.wf() && *final(self) == *final(r.entities)', 'C01 C02 C17'),
+                  E('owns', 'r.entities.alloc.abs().current(r.entity)', 'C02')])
     # EntityResBuilder::build(mut self) is outside Verus's subset (`mut self` receiver): not under contract
     u.fn(F, ["impl<'a> Drop for EntityResBuilder<'a>", 'fn drop'], props='C02',
          impl_header="impl<'a> EntityResBuilder<'a>", key='EntityResBuilder::drop',
